@@ -63,6 +63,9 @@ Section Phase.
       apply J_sset; [exact HJ|]. cbn [okv value_units_ok] in Hpv. destruct (match k with KRtc => true | KRt => negb (kind_eqb pk KRtc) | _ => false end); exact Hpv. }
     destruct (p =? p_TextDecoration).
     { destruct (sget pst p) as [[]|]; try exact HJ. destruct (sget st p) as [[]|]; try exact HJ; apply J_sset; try exact HJ; reflexivity. }
+    destruct (p =? p_WritingMode).
+    { (* the writing mode copied from the parent is one of the parent's (already root relative) values *)
+      pose proof (Hp p) as Hpv. destruct (sget pst p) as [v|]; [|exact HJ]. apply J_sset; assumption. }
     destruct (is_inherited p && negb (shas st p)); [|exact HJ].
     pose proof (Hp p) as Hpv. destruct (sget pst p) as [v|]; [|exact HJ]. apply J_sset; assumption.
   Qed.
